@@ -628,6 +628,7 @@ example : (exprPieces .accounts false "l".toList (.not (.set false []))).toOptio
     some (some (.not .tt)) := by decide
 
 /-- shapes the reading refuses rather than guesses -/
-example : boolParseSql "a is not null" = none ∧ boolParseSql "a and" = none ∧ boolParseSql "(a or b" = none := by decide
+example : boolParseSql "a is not null" = none ∧ boolParseSql "a and" = none ∧ boolParseSql "(a or b" = none ∧
+    boolParseSql "a between 1 and 2" = none := by decide
 
 end C04
